@@ -133,6 +133,12 @@ def run_scenario(scenario):
             cur['yielded'] += 1
             yield i
 
+    class Ids(object):
+        """Re-iterable: every run of the equalizer walks the ids from the start."""
+
+        def __iter__(self):
+            return id_iter()
+
     def player(rid):
         b = script[rid]
         try:
@@ -243,11 +249,27 @@ def run_scenario(scenario):
     old_alarm = signal.signal(signal.SIGALRM, on_alarm)
     signal.alarm(cap)
     try:
-        eq = Equalizer(id_iter(), player, extractor, comparator, compare_execution_config=cfg)
+        eq = Equalizer(Ids(), player, extractor, comparator, compare_execution_config=cfg)
         holder['eq'] = eq
         consume = scenario.get('consume', 'full')
         gen = None
-        if consume != 'never':
+        if isinstance(consume, list) and consume[0] == 'overlap':
+            # a preview run is started and left open after k comparisons, a second run of the same equalizer is
+            # consumed completely, then the preview is abandoned
+            def note(c):
+                out['comparisons'].append({'recording_id': c.recording_id,
+                                           'status': c.comparator_status.equality_status.name,
+                                           'message': c.comparator_status.message, 'playback_id': None,
+                                           'expected': None, 'actual': None})
+            preview = eq.run_comparison()
+            for _, c in zip(range(consume[1]), preview):
+                note(c)
+            out['preview'] = len(out['comparisons'])
+            for c in eq.run_comparison():
+                note(c)
+            preview.close()
+            del preview
+        elif consume != 'never':
             gen = eq.run_comparison()
             last = time.time()
             n = 0
